@@ -306,6 +306,12 @@ class PosClassifier:
                     elif isinstance(v, ast.Call) and src(v.func).endswith('one') and v.args \
                             and self.in_grid_list(v.args[0], 3):
                         verdicts.append(True)
+                    elif isinstance(v, ast.Call) and src(v.func) == 'choice' and \
+                            len(v.args) == 2 and not v.keywords and \
+                            isinstance(v.args[1], ast.Name) and \
+                            self.positions_iter(v.args[1]):
+                        # rng.py's choice(rng, L): an element of the in-grid list L
+                        verdicts.append(True)
                     else:
                         verdicts.append(self.classify(v, loops, depth - 1)[0] == SAFE)
                 else:
